@@ -163,6 +163,7 @@ class _Ctx:
         c.local_callables: dict = {}      # local var -> set of qualnames
         c.shells: dict = {}               # local name -> origins whose elements the (fresh) container holds
         c.globals_decl: set = set()
+        c.fresh_fields: set = set()        # self.<attr> assigned a fresh object earlier in this method
         c.is_method = f.cls is not None and isinstance(f.node, ast.FunctionDef)
         c.self_name = (params_of(f.node)[0] or [None])[0] if c.is_method and not any(d in ('staticmethod',) for d in eff.prog.decorators(f.node)) else None
 
@@ -245,6 +246,7 @@ class _Ctx:
         sub = _Ctx(c.eff, c.f, dict(c.env), c.ann, c.depth, c.via)
         sub.shells = dict(c.shells); sub.local_fns = c.local_fns; sub.local_callables = c.local_callables
         sub.mut, sub.glob, sub.selfw = c.mut, c.glob, c.selfw
+        sub.fresh_fields = c.fresh_fields
         for g in e.generators:
             o = sub.elements(g.iter)
             for el in ast.walk(g.target):
@@ -378,6 +380,11 @@ class _Ctx:
         return Site(c.f.mod.rel, getattr(node, 'lineno', 0), how, ast.unparse(node)[:90].replace('\n', ' '), c.via)
 
     def mutate(c, target_expr, node, how, elements=False):
+        # self.<fresh field>.append(...) / self.<fresh field>[k] = v : the object was created by this method, not supplied by the caller
+        base = target_expr
+        while isinstance(base, (ast.Subscript,)): base = base.value
+        if isinstance(base, ast.Attribute) and isinstance(base.value, ast.Name) and base.value.id == c.self_name and base.attr in c.fresh_fields and not elements:
+            return
         origins = c.elements(target_expr) if elements else c.origin(target_expr)
         for o in origins:
             c.record(o, node, how)
@@ -487,6 +494,10 @@ class _Ctx:
                 elif isinstance(el, ast.Starred) and isinstance(el.value, ast.Name):
                     c.env[el.value.id] = set(); c.shells[el.value.id] = set(o or set())
         elif isinstance(t, (ast.Subscript, ast.Attribute)):
+            if isinstance(t, ast.Attribute) and isinstance(t.value, ast.Name) and t.value.id == c.self_name and value_expr is not None:
+                # self.x = <expr>: remember whether the field now holds an object created here
+                if not c.origin(value_expr): c.fresh_fields.add(t.attr)
+                else: c.fresh_fields.discard(t.attr)
             c.mutate(t.value, stmt, 'store')
 
     def walk(c, stmts):
